@@ -107,9 +107,10 @@ def dag_menu(cols, roles, depth, hist, rich=True):
                 items.append({"op": "select_columns", "columns": [K[0], newc[-1]]})
                 if rich:
                     items.append({"op": "drop_columns", "columns": [newc[-1]]})
+        if rich or depth == 1:
+            items.append({"op": "order_rows", "columns": [A], "reverse": [], "limit": 2})
         if rich:
             items.append({"op": "select_rows", "expr": O(">", C(A), V(1))})
-            items.append({"op": "order_rows", "columns": [A], "reverse": [], "limit": 2})
     if depth >= 1 and K:
         k = K[0]
         for p in sorted({0, depth - 1, depth}):
@@ -120,6 +121,11 @@ def dag_menu(cols, roles, depth, hist, rich=True):
         items.append({"op": "natural_join", "b": {"table": hist["table"], "steps": list(hist["steps"])}, "on": [k], "jointype": "LEFT"})
         items.append({"op": "concat_rows", "b": {"prefix": depth}, "id_column": "src", "a_name": "a", "b_name": "b"})
         items.append({"op": "concat_rows", "b": {"prefix": depth}, "id_column": None})
+        # a member of the union that carries its own ORDER BY / LIMIT (inline without WITH)
+        lim = {"op": "order_rows", "columns": [A], "reverse": [], "limit": 1}
+        items.append({"op": "concat_rows", "b": {"prefix": depth, "steps": [lim]}, "id_column": None})
+        if rich:
+            items.append({"op": "concat_rows", "b": {"prefix": depth, "steps": [lim]}, "id_column": "src"})
         if rich:
             items.append({"op": "natural_join", "b": menus.E_HIST, "on": [k], "jointype": "LEFT"})
     return items
